@@ -603,7 +603,7 @@ Definition dnext : list (dop unit) := [DSimple true; DResetBytes (bs "r1;"); DDe
 Lemma dec_simple_true_refuted :
   snd (c_dec_run (fst (c_dec_run (c_new_decoder dinput1) dhist)) dnext) =
     [ODUnit; ODUnit; ODecoded (DStr (bs "hello")) None false] /\
-  snd (c_dec_run (c_new_decoder []) dnext) = [ODUnit; ODUnit; ODecoded DPanic None false].
+  snd (c_dec_run (c_new_decoder []) dnext) = [ODUnit; ODUnit; ODecoded DNil (Some EOther) false].
 Proof. split; vm_compute; reflexivity. Qed.
 
 (* pooled path: a user gives a pooled decoder a slice (ResetBytes) and then a reader (ResetReader);
@@ -650,7 +650,7 @@ Proof. repeat constructor. Qed.
 Lemma sample_dsessions_obs :
   snd (c_dsessions_run [] sample_dsessions) =
   [ [ODUnit; ODUnit; ODUnit; ODecoded (DList [DStr (bs "hello"); DStr (bs "hello")]) None false];
-    [ODOpts opts0; ODUnit; ODecoded DPanic None false; ODErr None];
+    [ODOpts opts0; ODUnit; ODecoded DNil (Some EOther) false; ODErr (Some EOther)];
     [ODUnit; ODUnit; ODecoded (DLong 0 5) None false; ODecoded DNil (Some EInvalidTag) false; ODErr (Some EInvalidTag)] ].
 Proof. vm_compute. reflexivity. Qed.
 
@@ -763,5 +763,5 @@ Lemma now_pool_dec_no_hang :
 Proof. vm_compute. reflexivity. Qed.
 
 Lemma now_simple_true_is_clean :
-  snd (f_dec_run (fst (f_dec_run (c_new_decoder dinput1) dhist)) dnext) = [ODUnit; ODUnit; ODecoded DPanic None false].
+  snd (f_dec_run (fst (f_dec_run (c_new_decoder dinput1) dhist)) dnext) = [ODUnit; ODUnit; ODecoded DNil (Some EOther) false].
 Proof. vm_compute. reflexivity. Qed.
